@@ -24,7 +24,7 @@ type slot struct {
 
 var slots = []slot{
 	{"attr-name", 8}, {"action-name", 5}, {"entity-annotations", 4}, {"attr-annotations", 3}, {"shape", 3}, {"appliesTo", 5}, {"optional", 2},
-	{"attr-type", 15}, {"enum", 4}, {"action-parents", 5}, {"placement", 3}, {"tags", 5}, {"entity-parents", 5}, {"common-type", 5}, {"ns-annotations", 3}, {"action-annotations", 3}, {"empty-namespace", 4},
+	{"attr-type", 17}, {"enum", 4}, {"action-parents", 5}, {"placement", 3}, {"tags", 5}, {"entity-parents", 5}, {"common-type", 5}, {"ns-annotations", 3}, {"action-annotations", 3}, {"empty-namespace", 4},
 }
 
 var attrNames = []types.String{"a", "if", "k k", "q\"uote\\", "", "é", "entity", "in"}
@@ -60,6 +60,19 @@ func attrType(k int) sast.IsType {
 		return sast.Type("T")
 	case 13:
 		return sast.RecordType{}
+	case 15:
+		// records nested 20 deep (indentation / recursion depth of the renderers)
+		var t sast.IsType = sast.Long()
+		for d := 0; d < 20; d++ {
+			t = sast.RecordType{"n": sast.Attribute{Type: t, Optional: d%2 == 1}}
+		}
+		return t
+	case 16:
+		var t sast.IsType = sast.String()
+		for d := 0; d < 20; d++ {
+			t = sast.Set(t)
+		}
+		return t
 	}
 	return sast.Type("G") // an entity type referenced through a TypeRef
 }
@@ -309,6 +322,14 @@ func describe(c []int) string {
 	return strings.Join(parts, ",")
 }
 
+// usedSchema: a schema value that already holds declarations of every kind (a reused decode target).
+func usedSchema() *schema.Schema {
+	var s schema.Schema
+	_ = s.UnmarshalCedar([]byte(`@old("x") namespace Old { type OldT = Long; entity OldE in [OldE] { a: OldT } tags String; entity OldEnum enum ["x"]; action oldAct appliesTo { principal: OldE, resource: OldE, context: { c: Bool } }; }
+entity TopOld; action topOld;`))
+	return &s
+}
+
 func checkConfig(t *core.T, c []int) {
 	desc := describe(c)
 	var ast0 *sast.Schema
@@ -356,6 +377,13 @@ func checkConfig(t *core.T, c []int) {
 		case gerr == nil && got != want:
 			t.Fail(sig("text-roundtrip-changes-resolved-schema"), in(), want, got)
 		}
+		// decoding replaces a schema value that already holds declarations
+		sUsed := usedSchema()
+		if err := sUsed.UnmarshalCedar(text); err != nil {
+			t.Fail(sig("text-into-used-receiver"), in(), "parses", err.Error())
+		} else if g, e := resolveCanon(sUsed); (e == nil) != (gerr == nil) || g != got {
+			t.Fail(sig("text-into-used-receiver"), in(), got, g+fmt.Sprint(e))
+		}
 		text2, err := s1.MarshalCedar()
 		if err != nil || !bytes.Equal(text, text2) {
 			t.Fail(sig("text-second-rendering-differs"), in(), string(text), string(text2)+fmt.Sprint(err))
@@ -387,6 +415,12 @@ func checkConfig(t *core.T, c []int) {
 		t.Fail(sig("json-roundtrip-changes-resolvability"), jin(), fmt.Sprint(werr), fmt.Sprint(gerr))
 	case gerr == nil && got != want:
 		t.Fail(sig("json-roundtrip-changes-resolved-schema"), jin(), want, got)
+	}
+	jUsed := usedSchema()
+	if err := jUsed.UnmarshalJSON(js); err != nil {
+		t.Fail(sig("json-into-used-receiver"), jin(), "decodes", err.Error())
+	} else if g, e := resolveCanon(jUsed); (e == nil) != (gerr == nil) || g != got {
+		t.Fail(sig("json-into-used-receiver"), jin(), got, g+fmt.Sprint(e))
 	}
 	js2, err := s2.MarshalJSON()
 	if err != nil || !bytes.Equal(js, js2) {
@@ -421,7 +455,7 @@ func Check() *core.Check {
 		ID:        "C17",
 		HangAfter: 120 * time.Second, // cases take at most seconds (max_case_s in the evidence); see core.Family.HangAfter
 		Title:     "Schema codecs round-trip and preserve the resolved schema",
-		Rule: "bounded deviation enumeration: a base schema using every construct, with 17 feature slots (names needing quotes for attributes and actions, annotations with / without value on namespaces, entities, attributes, actions and common types, empty / missing shapes, all appliesTo forms, optional attributes, 15 attribute types incl. nested records, sets, entity and extension references, common and built-in type references, enums with 0-3 values, action parents unqualified / qualified / cross-namespace / bare `Action::` naming the empty namespace from inside a namespace, placement at top level / in a namespace / in a nested namespace, tags, parent lists, common-type chains, a declared but empty namespace (plain / annotated / nested name)); every configuration with at most the stated number of slots deviating from the base; oracle: Resolve(parse(render(S))) equals Resolve(S) for text and JSON (canonical form: maps sorted, parent / appliesTo lists as sets, nil == empty), second rendering byte-identical, text->JSON and JSON->text commute with Resolve, resolution errors preserved; " +
+		Rule: "bounded deviation enumeration: a base schema using every construct, with 17 feature slots (names needing quotes for attributes and actions, annotations with / without value on namespaces, entities, attributes, actions and common types, empty / missing shapes, all appliesTo forms, optional attributes, 17 attribute types incl. nested records, records and sets nested 20 deep, sets, entity and extension references, common and built-in type references, enums with 0-3 values, action parents unqualified / qualified / cross-namespace / bare `Action::` naming the empty namespace from inside a namespace, placement at top level / in a namespace / in a nested namespace, tags, parent lists, common-type chains, a declared but empty namespace (plain / annotated / nested name)); every configuration with at most the stated number of slots deviating from the base; oracle: Resolve(parse(render(S))) equals Resolve(S) for text and JSON (canonical form: maps sorted, parent / appliesTo lists as sets, nil == empty), second rendering byte-identical, decoding into a schema value that already holds declarations gives the same result, text->JSON and JSON->text commute with Resolve, resolution errors preserved; " +
 			"a configuration is non-trivial if the schema resolves",
 		Assumptions: []string{"Resolve itself is the reference for what a schema means"},
 		Families: func(tier string) []*core.Family {
